@@ -142,5 +142,8 @@ def replay(run, path):
         print("replay: accepted (no violation)")
         return 0
     print("replay: rejected at event %d: %s" % (line, json.dumps(events[line - 1])))
+    if events[line - 1]["op"] in ("kill-not-reached", "child-output"):
+        print("INCONCLUSIVE property=C15: the scenario's kill point was not reached (harness problem, not a defect)")
+        return 2
     print("VIOLATION property=C15 replay=%s" % path)
     return 1
